@@ -11,16 +11,16 @@ def handle (fn : String) (args : List Json) : String :=
     | [a0] => (do let x0 ← Wire.decStr a0; pure (Wire.respondWith Wire.encStr (Gen.se_personnummer.format x0)) : Option String).getD "badargs"
     | _ => "badargs"
   | "get_birth_date" => match args with
-    | [t, a0] => (do let today ← Wire.decDate t; let x0 ← Wire.decStr a0; pure (Wire.respondWith Wire.encDate (Gen.se_personnummer.get_birth_date today x0)) : Option String).getD "badargs"
+    | [t, a0] => (do let today__ ← Wire.decDate t; let x0 ← Wire.decStr a0; pure (Wire.respondWith Wire.encDate (Gen.se_personnummer.get_birth_date today__ x0)) : Option String).getD "badargs"
     | _ => "badargs"
   | "get_gender" => match args with
     | [a0] => (do let x0 ← Wire.decStr a0; pure (Wire.respondWith Wire.encStr (Gen.se_personnummer.get_gender x0)) : Option String).getD "badargs"
     | _ => "badargs"
   | "is_valid" => match args with
-    | [t, a0] => (do let today ← Wire.decDate t; let x0 ← Wire.decStr a0; pure (Wire.respondWith Wire.encBool (Gen.se_personnummer.is_valid today x0)) : Option String).getD "badargs"
+    | [t, a0] => (do let today__ ← Wire.decDate t; let x0 ← Wire.decStr a0; pure (Wire.respondWith Wire.encBool (Gen.se_personnummer.is_valid today__ x0)) : Option String).getD "badargs"
     | _ => "badargs"
   | "validate" => match args with
-    | [t, a0] => (do let today ← Wire.decDate t; let x0 ← Wire.decStr a0; pure (Wire.respondWith Wire.encStr (Gen.se_personnummer.validate today x0)) : Option String).getD "badargs"
+    | [t, a0] => (do let today__ ← Wire.decDate t; let x0 ← Wire.decStr a0; pure (Wire.respondWith Wire.encStr (Gen.se_personnummer.validate today__ x0)) : Option String).getD "badargs"
     | _ => "badargs"
   | _ => "nofunc"
 end Driver.D_se_personnummer
